@@ -55,7 +55,12 @@ def handle (line : String) : String :=
       if !(validIri b && validIri i) then "skip=1" else
       -- `gen_same`: the `Relativizer<String>` instantiation, a clone and `base()` agree with `Relativizer<&str>`
       -- (one function in the model); a plain field: a difference is a model/implementation disagreement
-      let same := (if sameDoc b i then [kv "o.some" "1"] else []) ++ [kv "gen_same" "1"]
+      let same := (if sameDoc b i then [kv "o.some" "1"] else []) ++ [kv "gen_same" "1",
+        -- hypotheses of `rel_boundaries_utf8_partial` / `rel_same_doc_some`, evaluated on every case: every Rust
+        -- `&str` must have the UTF-8 shape (the harness answers `utf8=1`); `m.authmb` = the excluded base shape
+        kvB "utf8" (utf8Shaped 0 b && utf8Shaped 0 i), kvB "m.authmb" (authEndsMultibyteNoPath b),
+        -- the input-side region of `rel_path_input_partial`: there the theorem promises a reference (`o.some`)
+        kvB "m.inpath" (pathInputCase b n i)] ++ (if pathInputCase b n i then [kv "o.some" "1"] else [])
       match relativize (Relativize.new b n) i with
       | .panic => reply ([kv "rel" "panic", kv "pk" "boundary", kv "o.nopanic" "1"] ++ same)
       | .none => reply ([kv "rel" "none", kv "o.nopanic" "1"] ++ same)
